@@ -27,7 +27,7 @@ Inductive token :=
 | TInt (n : N)                 (* /\d+/ *)
 | TDec (lead : bool) (m : N) (scale : nat)  (* decimal; lead: an integer part is written *)
 | TDate (y m d : N)            (* /\d{4}-\d{2}-\d{2}/, a valid calendar date *)
-| TStr (dq : bool) (s : str)   (* string in double (dq) or single quotes *)
+| TStr (s : str)               (* string in double or single quotes: the text between them *)
 | TTable (s : str)             (* # followed by an optional identifier, case kept *)
 | TPlaceS                      (* %s *)
 | TPlaceN (s : str)            (* %(name)s *)
@@ -187,7 +187,7 @@ Definition lex_one (sk : list Z -> list Z) (c : Z) (r : list Z) : option (token 
     end
   else if (c =? 34) || (c =? 39) then
     match until_quote c r with
-    | Some (s, r1) => Some (TStr (c =? 34) s, r1)
+    | Some (s, r1) => Some (TStr s, r1)
     | None => None
     end
   else if c =? 35 then
@@ -289,7 +289,7 @@ Definition render_tok (t : token) : str :=
       let ds := pad (if lead then S sc else sc) (digits m) in
       firstn (List.length ds - sc) ds ++ [46] ++ skipn (List.length ds - sc) ds
   | TDate y m d => pad 4 (digits y) ++ [45] ++ pad 2 (digits m) ++ [45] ++ pad 2 (digits d)
-  | TStr dq s => let q := if dq then 34 else 39 in q :: s ++ [q]
+  | TStr s => let q := if existsb (fun c => c =? 39) s then 34 else 39 in q :: s ++ [q]
   | TTable s => 35 :: s
   | TPlaceS => [37; 115]
   | TPlaceN s => [37; 40] ++ s ++ [41; 115]
@@ -316,7 +316,7 @@ Definition tok_ok (t : token) : bool :=
   | TId s | TPlaceN s => ident_ok s
   | TDec lead m sc => if lead then true else (1 <=? sc)%nat && (List.length (digits m) <=? sc)%nat
   | TDate y m d => valid_date y m d
-  | TStr dq s => forallb (fun c => negb (c =? (if dq then 34 else 39))) s
+  | TStr s => negb (existsb (fun c => c =? 34) s && existsb (fun c => c =? 39) s)
   | TTable s => table_ok s
   | _ => true
   end.
